@@ -118,6 +118,7 @@ type Runner struct {
 	NoViz    bool
 	infos    map[string]*Info
 	sentinel map[planKey]*ExecErr
+	cbs      map[string]int
 	// RandPlan, when set, decides outcomes not in Plan (recorded into Plan)
 	RandPlan func(f string, n int) string
 }
@@ -133,7 +134,7 @@ type api interface {
 func New(c *cat.Catalog, o cat.Opts) *Runner {
 	r := &Runner{Cat: c, Opts: o, Plan: map[planKey]string{}, scopes: map[string]*dig.Scope{},
 		execs: map[string]int{}, fnOf: map[uintptr]string{}, infos: map[string]*Info{},
-		sentinel: map[planKey]*ExecErr{}}
+		sentinel: map[planKey]*ExecErr{}, cbs: map[string]int{}}
 	clk, adv := dig.VerifMockClock()
 	r.advance = adv
 	opts := []dig.Option{clk}
@@ -203,6 +204,11 @@ func (r *Runner) body(id string, l *layout) func([]reflect.Value) []reflect.Valu
 func (r *Runner) callback(id string) dig.Callback {
 	return func(ci dig.CallbackInfo) {
 		n := r.execs[id]
+		if r.Opts.Dry {
+			// the function body never runs in a dry container: count the callbacks instead
+			r.cbs[id]++
+			n = r.cbs[id]
+		}
 		e := "other"
 		var pe dig.PanicError
 		var xe *ExecErr
